@@ -42,6 +42,7 @@ class Outcome:
         self.agree = 0
         self.agree_total = 0
         self.drift_examples: list = []
+        self._adrift_shown = 0
         self.exhaustive = False
         self.extra: dict = {}
 
@@ -84,6 +85,14 @@ class Outcome:
             for k, v in st.items():
                 if k not in ("n", "agree", "modelled"):
                     self.clause_hits[k] = self.clause_hits.get(k, 0) + (v if isinstance(v, int) else 0)
+            for v in r.info:
+                # ("ADRIFT", record id, {fields}): accessor fields of the observation that differ from Level I's AccM
+                if isinstance(v, (list, tuple)) and len(v) >= 3 and v[0] == "ADRIFT":
+                    for f in (v[2] if isinstance(v[2], (list, tuple, set, frozenset)) else [v[2]]):
+                        self.clause_hits[f"accessor_drift.{f}"] = self.clause_hits.get(f"accessor_drift.{f}", 0) + 1
+                    if os.environ.get("VERIF_SHOW_ADRIFT") and self._adrift_shown < 12:
+                        self._adrift_shown += 1
+                        print("ADRIFT", sorted(v[2]) if not isinstance(v[2], str) else v[2], _shorten(records_by_id.get(v[1], {}).get("call", v[1])), flush=True)
             for rid in r.drift:
                 if len(self.drift_examples) < 5:
                     self.drift_examples.append(_shorten(records_by_id.get(rid, {}).get("call", rid)))
